@@ -551,6 +551,10 @@ def load(f, **options):  # type: (typing.IO, **typing.Any) -> canmatrix.CanMatri
     #            db.frames.addFrame(Frame(temp.group(1), temp.group(2), temp.group(3), temp.group(4)))
                 frame = canmatrix.Frame(temp.group(2), arbitration_id=int(temp.group(1)),
                                         size=int(temp.group(3)), transmitters=temp.group(4).split())
+                if temp.group(2) == "VECTOR__INDEPENDENT_SIG_MSG" and int(temp.group(1)) & 0x7FFFFFFF == 0x40000000:
+                    # dummy frame holding the signals without frame: its special id does not fit into 29 bit
+                    frame.arbitration_id.extended = True
+                    frame.arbitration_id.id = 0x40000000
                 db.frames.append(frame)
                 add_frame_by_id(frame)
             elif decoded.startswith("SG_ "):
